@@ -125,13 +125,28 @@ glamfit_complex(const struct ndsparse* data, const double* weights, const double
 			printf("\t\tConvolving dimension %ld\n",i);
 
 		err=slicemultiply(&F, boxedbases[i], i, c);
-		if (err != 0) {
+		if (err != 0)
 			printf("slicemultiply (F) failed\n");
-			return(1);
+		else {
+			err=slicemultiply(&R, bases[i], i, c);
+			if (err != 0)
+				printf("slicemultiply (R) failed\n");
 		}
-		err=slicemultiply(&R, bases[i], i, c);
 		if (err != 0) {
-			printf("slicemultiply (R) failed\n");
+			/* (a failed multiplication leaves its array as it was) */
+			for (j = 0; j < F.ndim; j++)
+				free(F.i[j]);
+			free(F.x); free(F.i); free(F.ranges);
+			for (j = 0; j < R.ndim; j++)
+				free(R.i[j]);
+			free(R.x); free(R.i); free(R.ranges);
+			for (j = 0; j < data->ndim; j++) {
+				cholmod_l_free_sparse(&bases[j], c);
+				cholmod_l_free_sparse(&boxedbases[j], c);
+			}
+			free(bases);
+			free(boxedbases);
+			free(nsplines);
 			return(1);
 		}
 	}
